@@ -189,6 +189,20 @@ func (dec *ttlvReader) validate() error {
 	if ty := dec.Type(); ty > TypeInterval || ty == 0 {
 		return Errorf("invalid TTLV type %s", ty)
 	}
+	switch l := dec.len(); dec.Type() {
+	case TypeInteger, TypeEnumeration, TypeInterval:
+		if l != 4 {
+			return Errorf("invalid TTLV length for type %s. Got %d bytes, expected 4", dec.Type(), l)
+		}
+	case TypeLongInteger, TypeBoolean, TypeDateTime:
+		if l != 8 {
+			return Errorf("invalid TTLV length for type %s. Got %d bytes, expected 8", dec.Type(), l)
+		}
+	case TypeBigInteger:
+		if l == 0 || l%8 != 0 {
+			return Errorf("invalid TTLV length for type %s. Got %d bytes, expected a non-zero multiple of 8", dec.Type(), l)
+		}
+	}
 	// if th := (dec.Tag() >> 16) & 0xFF; th != 0x42 && th != 0x54 {
 	// 	return Errorf("invalid TTLV tag %X", dec.Tag())
 	// }
